@@ -232,6 +232,15 @@ CORPUS = [
      'runs': [{'outcomes': ['donenone', 'done', 'failnone'], 'strategy': 'uniform', 'seed': 54}]},
     {'n': 3, 'hard': [[], [0], []], 'soft': [[], [], [0]], 'workers': 2, 'log_env': True, 'no_model': True,
      'runs': [{'outcomes': ['done', 'raise', 'done'], 'strategy': 'pct', 'seed': 55}]},
+    # C04: a failing soft dependency listed before a re-executed DONE dependency, both final before the
+    # master looks at the dependent (which was DONE)
+    {'n': 3, 'hard': [[], [], [1]], 'soft': [[], [], [0]], 'workers': 2,
+     'runs': [{'outcomes': ['done', 'done', 'done'], 'strategy': 'uniform', 'seed': 59},
+              {'outcomes': ['raise', 'done', 'done'], 'lost': [0, 1], 'strategy': 'master_last', 'seed': 60}]},
+    {'n': 4, 'hard': [[], [], [], [1, 2]], 'soft': [[], [], [], [0]], 'workers': 3,
+     'runs': [{'outcomes': ['done', 'done', 'done', 'done'], 'strategy': 'uniform', 'seed': 61},
+              {'outcomes': ['failnone', 'done', 'done', 'done'], 'lost': [0, 2], 'strategy': 'master_last', 'seed': 62},
+              {'outcomes': ['done', 'raise', 'done', 'done'], 'lost': [0, 1, 2], 'strategy': 'master_last', 'seed': 63}]},
     # C04: the time zone of the process changes between two runs
     {'n': 3, 'hard': [[], [0], [1]], 'soft': [[], [], []], 'workers': 2,
      'runs': [{'outcomes': ['done', 'done', 'done'], 'strategy': 'uniform', 'seed': 56},
